@@ -317,7 +317,9 @@ func (c *Ctx) boundComputation() {
 		st := an.StateBefore(inc)
 		c.Implies(st, c.Want(fn, inc.Pos(), "0 <= $1 && $1 < $2", slot, boundID), "C01.3-extend-only-for-slots-in-range", name, inc.Pos())
 		// C01.4 overflow
-		c.Implies(st, c.Want(fn, inc.Pos(), "$1 < 2147483647", boundID), "C01.4-no-wrapping-bound", name, inc.Pos())
+		if !c.skipWrap {
+			c.Implies(st, c.Want(fn, inc.Pos(), "$1 < 2147483647", boundID), "C01.4-no-wrapping-bound", name, inc.Pos())
+		}
 		return true
 	})
 	c.Floor("C01.3-bound-increments", nInc, 1)
